@@ -149,4 +149,59 @@ static size_t make_stream(const char *method, size_t target, unsigned seed, uint
 	}
 	return 0;
 }
+
+/* A valid stream of 'method' whose output is exactly the given bytes (literals only).  Returns the stream length, 0 when the
+ * method is not covered. */
+static size_t literal_stream(const char *method, const uint8_t *bytes, size_t nb, uint8_t *out, size_t cap)
+{
+	static ref_cmd lc[8192];
+	static uint8_t scratch[8192 + 64];
+	const ref_lh_params *M = ref_lh_params_for(method);
+	size_t i, el = 0;
+	if (nb == 0 || nb > 8192) return 0;
+	for (i = 0; i < nb; ++i) { memset(&lc[i], 0, sizeof lc[i]); lc[i].value = bytes[i]; lc[i].len = 1; }
+	if (!strcmp(method, "-lzs-")) return ref_lzs_serialise(lc, (int) nb, out, cap);
+	if (!strcmp(method, "-lz5-")) return ref_lz5_serialise(lc, (int) nb, out, cap);
+	if (M) {
+		static ref_lh_block b;
+		ref_bw w;
+		ref_bw_init(&w, out, cap);
+		if (!ref_lh_block_auto(M, &b, lc, (int) nb) || !ref_lh_write_block(M, &w, &b)) return 0;
+		return ref_bw_bytes(&w);
+	}
+	if (!strcmp(method, "-lh1-")) {
+		static ref_lh1_tree t;
+		ref_bw w;
+		ref_lh1_start(&t);
+		ref_bw_init(&w, out, cap);
+		for (i = 0; i < nb; ++i) ref_lh1_put_cmd(&t, &w, &lc[i]);
+		return w.overflow ? 0 : ref_bw_bytes(&w);
+	}
+	if (!strcmp(method, "-pm2-")) {
+		ref_bw w;
+		ref_pm2_enc e;
+		uint8_t len[32], bl[32];
+		static ref_pm2_ctable ct1, cts[8];
+		static ref_pm2_otable ots[8];
+		static int rr[8];
+		int k;
+		ref_balanced_lengths(29, bl);
+		for (k = 0; k < 29; ++k) len[k] = bl[k];
+		ref_pm2_ctable_from_lengths(&ct1, len, 29);
+		for (k = 0; k < 8; ++k) { cts[k] = ct1; memset(&ots[k], 0, sizeof ots[k]); ref_balanced_lengths(k == 0 ? 5 : k == 1 ? 6 : k == 2 ? 7 : 8, ots[k].len); rr[k] = 0; }
+		ref_bw_init(&w, out, cap);
+		ref_pm2_enc_init(&e, &w, cts, ots, rr, 8, scratch, sizeof scratch);
+		for (i = 0; i < nb; ++i) ref_pm2_put(&e, &lc[i]);
+		if (e.error || w.overflow || e.out != nb) return 0;
+		return ref_bw_bytes(&w);
+	}
+	if (!strcmp(method, "-pm1-")) {
+		static ref_pm1_item it[64];
+		int ni = 0;
+		for (i = 0; i < nb && ni < 64; i += 200) { it[ni].copy = 0; it[ni].bytes = bytes + i; it[ni].nbytes = (int) (nb - i < 200 ? nb - i : 200); it[ni].range = -1; ++ni; }
+		if (i < nb) return 0;
+		return ref_pm1_serialise(0, it, ni, out, cap, scratch, sizeof scratch, &el);
+	}
+	return 0;
+}
 #endif
